@@ -383,7 +383,14 @@ def build(cfg):
         ns = {}
         if cfg["annot"] is not None:
             ns["__annotations__"] = mk_py(cfg["annot"])
-        cls = types.new_class("Reg", (csr.Register,), kw, lambda d: d.update(ns))
+        base = csr.Register
+        if cfg["annot"] is not None and len(repr(cfg["annot"])) % 3 == 0:
+            # an annotation-defined register class derived from another one that was instantiated first: the
+            # derived class re-declares its annotations and must get its OWN fields
+            bns = {"__annotations__": {"base_f": csr.Field(L["action"].RW, 3), "base_g": csr.Field(L["action"].R, 2)}}
+            base = types.new_class("Base", (csr.Register,), {}, lambda d: d.update(bns))
+            base(access="rw")
+        cls = types.new_class("Reg", (base,), kw, lambda d: d.update(ns))
     else:
         cls = csr.Register
     args = {}
